@@ -33,6 +33,8 @@ def classify(r):
         feats.append("multibyte-info-string")
     if ref["must_err"]:
         return "ok-although-only-error-acceptable:" + "+".join(feats or ["unterminated-front-matter"])
+    if r.get("fm") != "any" and o.get("fm") != (r.get("fm") == "yes"):
+        return "front-matter:" + ("read-although-none-written" if o.get("fm") else "not-read") + ":first-line=" + repr(r["lines"][0][:6])
     if len(o["tests"]) != len(ref["tests"]):
         return f"test-count:{'+'.join(feats) or 'plain'}:lastline={r['lines'][-1][:12]}"
     d = sorted({f for a, b in zip(o["tests"], ref["tests"]) for f in ("cmd", "exps", "code", "cfg", "line") if a[f] != b[f]})
@@ -65,7 +67,7 @@ def run(prop, tier, replay=None):
     harness(["md-replay", "--vectors", vpath, "--records", rpath])
     records = read_ndjson(rpath)
     results, printed = tlc_validate_sharded("MarkdownTrace", "MarkdownTrace.cfg", records, work, shards=min(NCPU, 8),
-                                            slim=lambda r: {k: r[k] for k in ("ev", "id", "ref", "obs")},
+                                            slim=lambda r: {k: r[k] for k in ("ev", "id", "ref", "fm", "obs")},
                                             tags=("VERDICT", "UNEXPECTED-ERR"))
     for r in results:
         tlc_must_pass(r, "MarkdownTrace VAL")
